@@ -39,6 +39,13 @@ Theorem C07_error_frame : forall (s : state) (r : req),
 Proof. exact error_frame. Qed.
 Print Assumptions C07_error_frame.
 
+(* the fuel of the ancestry walks (uuid:branch~n addressing) always suffices: no request makes the
+   repaired code loop on a state that satisfies the invariant *)
+Theorem C07_no_divergence : forall (s : state) (r : req),
+  RepoInv s -> snd (step repaired s r) <> Hang.
+Proof. exact step_no_hang. Qed.
+Print Assumptions C07_no_divergence.
+
 (* readings of RepoInv: no version is its own ancestor ... *)
 Theorem C07_acyclic : forall (s : state) i R r,
   RepoInv s -> st_roots s !! i = Some R -> st_repos s !! i = Some r ->
